@@ -350,9 +350,14 @@ package circuitbreaker
 // (onRuleUpdate) is under a separate contract.
 //@ func onRuleUpdate(rawResRulesMap) err
 //@   assumed
+//@   modifies heap
 //@ func LoadRules(rules) (changed, err)
 //@   props C13
 //@   panics never
+//@   sets gCbLoadN = old(gCbLoadN) + 1
+//@   sets gCbLoadArg = rules
+//@   ensures[recorded] gCbLoadN == old(gCbLoadN) + 1 && gCbLoadArg == rules
+//@   modifies heap, gCbLoadN, gCbLoadArg
 //@   witness n = len(rules)
 //@   replay loadrules_nil
 
@@ -419,3 +424,12 @@ package circuitbreaker
 //@     invariant[no-equal-yet] equalIdx == 0 - 1 && (forall j Int :: 0 <= j && j < #i ==> !eqRule(oldResCbs[j].BoundRule(), r))
 //@     invariant[stat-idx] 0 - 1 <= reuseStatIdx && reuseStatIdx < #i && (reuseStatIdx >= 0 ==> statReusable(oldResCbs[reuseStatIdx].BoundRule(), r) && (forall j Int :: 0 <= j && j < reuseStatIdx ==> !statReusable(oldResCbs[j].BoundRule(), r)))
 //@     invariant[no-stat-yet] reuseStatIdx < 0 ==> (forall j Int :: 0 <= j && j < #i ==> !statReusable(oldResCbs[j].BoundRule(), r))
+
+// ---- loader entry points as seen by the datasource layer (C18): calls are recorded
+//@ ghost var gCbLoadN Int
+//@ ghost var gCbLoadArg Slice
+//@ ghost var gCbClearN Int
+//@ func ClearRules() err
+//@   assumed
+//@   ensures gCbClearN == old(gCbClearN) + 1
+//@   modifies gCbClearN
